@@ -180,6 +180,122 @@ def inject_case(scn, tr):
     return {"kind": "inject", "id": scn["id"], "expected": expected, "delivered": delivered, "events": events, "error": tr["error"]}
 
 
+def contain_cases(tier):
+    """error containment in the handlers that only exist outside simulation: raw-data, sports-data and
+    custom-event callbacks of a real (live-mode) framework instance.  An exception is injected at every
+    callback invocation (strategy x event x datum x callback kind x exception type); the handler must not
+    let it escape and every other callback must still happen exactly once."""
+    from unittest import mock
+    import flumine as fl_mod
+    from flumine import Flumine, BaseStrategy, clients, config as fconfig
+    from flumine.events import events as fev
+    from flumine.exceptions import FlumineException
+
+    STREAM = 1000
+    EVENTS = [
+        ("raw", [{"id": "1.100", "rc": [{"id": 11, "ltp": 2.0}]}]),
+        ("raw", [{"id": "1.100", "marketDefinition": {"status": "OPEN", "runners": []}}]),
+        ("raw", [{"marketId": "1.100", "eventId": "30000001", "score": 1}]),                  # cricket style datum: no "id"
+        ("raw", [{"id": "1.101", "rc": []}, {"eventId": "30000002", "marketId": "1.101"}]),    # two data in one event
+        ("sports", "1.100"),
+        ("custom", None),
+        ("raw", [{"id": "1.100", "rc": [{"id": 11, "ltp": 2.2}]}]),
+    ]
+
+    class S(BaseStrategy):
+        def __init__(self, name, log, inj, stream_id):
+            super().__init__(market_filter={}, name=name)
+            self.log, self.inj, self._sid = log, inj, stream_id
+
+        @property
+        def stream_ids(self):
+            return [self._sid]
+
+        def _hit(self, kind):
+            key = (self.name, self.log["ev"], self.log["datum"], kind)
+            self.log["delivered"].append([self.name, self.log["ev"], self.log["datum"], kind])
+            if self.inj and self.inj[:4] == key:
+                raise (RuntimeError("injected") if self.inj[4] == "rt" else FlumineException("injected"))
+
+        def process_raw_data(self, clk, publish_time, datum):
+            self.log["datum"] = self.log["data"].index(datum) if datum in self.log["data"] else -1
+            self._hit("raw")
+
+        def check_sports_data(self, market, sports_data):
+            self.log["datum"] = 0
+            self._hit("checksports")
+            return True
+
+        def process_sports_data(self, market, sports_data):
+            self.log["datum"] = 0
+            self._hit("sports")
+
+    def expected_for(names, inj):
+        exp = []
+        for ei, (kind, payload) in enumerate(EVENTS):
+            if kind == "raw":
+                for di in range(len(payload)):
+                    for n in names:
+                        exp.append([n, ei, di, "raw"])
+            elif kind == "sports":
+                for n in names:
+                    exp.append([n, ei, 0, "checksports"])
+                    if not (inj and inj[:4] == (n, ei, 0, "checksports")):
+                        exp.append([n, ei, 0, "sports"])
+            else:
+                exp.append(["-", ei, 0, "custom"])
+        return exp
+
+    def run(inj, order):
+        log = {"delivered": [], "ev": -1, "datum": -1, "data": []}
+        bc = mock.Mock()
+        bc.lightweight = False
+        saved = fconfig.raise_errors
+        fconfig.raise_errors = False
+        escaped = []
+        try:
+            framework = Flumine(client=clients.BetfairClient(bc))
+            strategies = [S(n, log, inj, STREAM) for n in order] + [S("Z", log, None, 2000)]    # Z listens to another stream
+            framework.strategies._strategies.extend(strategies) if hasattr(framework.strategies, "_strategies") else None
+            for ei, (kind, payload) in enumerate(EVENTS):
+                log["ev"], log["datum"], log["data"] = ei, 0, payload if kind == "raw" else []
+                try:
+                    if kind == "raw":
+                        framework._process_raw_data(fev.RawDataEvent((STREAM, "clk%d" % ei, 1700000000000 + ei, payload)))
+                    elif kind == "sports":
+                        sd = mock.Mock(spec=["market_id", "streaming_unique_id"])
+                        sd.market_id, sd.streaming_unique_id = payload, STREAM
+                        framework._process_sports_data(fev.SportsDataEvent([sd]))
+                    else:
+                        def cb(fw, event):
+                            log["delivered"].append(["-", ei, 0, "custom"])
+                            if inj and inj[:4] == ("-", ei, 0, "custom"):
+                                raise (RuntimeError("injected") if inj[4] == "rt" else FlumineException("injected"))
+                        framework._process_custom_event(fev.CustomEvent(None, cb))
+                except Exception as e:       # the handler let it through: the main loop would die here
+                    escaped.append([ei, type(e).__name__])
+        finally:
+            fconfig.raise_errors = saved
+        return log["delivered"], escaped
+
+    cases = []
+    k = 0
+    orders = [["A", "B"], ["B", "A"]] if tier == "quick" else [["A", "B"], ["B", "A"], ["A", "B", "C"]]
+    for order in orders:
+        points = [None]
+        base = expected_for(order, None)
+        for x in base:
+            if x[0] in (order[0], "-") or tier == "thorough":
+                for et in ("rt", "fl"):
+                    points.append((x[0], x[1], x[2], x[3], et))
+        for inj in points:
+            k += 1
+            delivered, escaped = run(inj, order)
+            cases.append({"kind": "contain", "id": "ct%d" % k, "expected": expected_for(order, inj), "delivered": delivered, "escaped": escaped,
+                          "inj": list(inj) if inj else [], "order": order})
+    return cases
+
+
 def check_c13(tier, seed):
     t0 = time.time()
     designs = [
@@ -243,6 +359,11 @@ def check_c13(tier, seed):
         scn_by_id[scn["id"]] = scn
         if i == 0:
             samples.append({"inject_scenario": scn["id"], "raise": victim.get("raise"), "middleware_raises_at": mw_keys, "deliveries": len(cases[-1]["delivered"])})
+    ncontain = 0
+    for c in contain_cases(tier):
+        cases.append(c)
+        scn_by_id[c["id"]] = {"contain_case": c["inj"], "order": c["order"]}
+        ncontain += 1
     wd = tlc.workdir("c13")
     try:
         res = validate_cases(cases, ["C13"], wd)
